@@ -193,6 +193,9 @@ func genCase(r *hx.Rand, big bool) hcase {
 	switch k := r.Intn(10); {
 	case k < 6: // real client hello, possibly padded
 		cfg := &tls.Config{InsecureSkipVerify: true, ServerName: randName(r)}
+		if r.Intn(6) == 0 {
+			cfg.ServerName = "" // no server name at all (with or without ALPN)
+		}
 		np := 0
 		switch r.Intn(4) {
 		case 1:
@@ -245,6 +248,9 @@ func genCase(r *hx.Rand, big bool) hcase {
 		}
 		body := len(h) - 5
 		payload := r.Bytes(r.Intn(300))
+		if r.Intn(8) == 0 {
+			payload = r.Bytes(18000 + r.Intn(30000)) // a session much longer than the peek buffer
+		}
 		return hcase{append(append([]byte{}, h...), payload...), cfg.ServerName, cfg.NextProtos, body <= 16384 && len(h) >= 5, kind}
 	case k < 7: // truncated hello then EOF
 		h := realHello(&tls.Config{InsecureSkipVerify: true, ServerName: randName(r)})
